@@ -66,9 +66,9 @@ def pointee(t):
 
 
 class Val:
-    __slots__ = ('path', 'nul', 'src', 'vs', 'const', 'ename', 'rk', 'ctype', 'addr_of')
+    __slots__ = ('path', 'nul', 'src', 'vs', 'const', 'ename', 'rk', 'ctype', 'addr_of', 'objk')
 
-    def __init__(self, path=None, nul=None, src=None, vs=None, const=None, ename=None, rk=None, ctype=None, addr_of=None):
+    def __init__(self, path=None, nul=None, src=None, vs=None, const=None, ename=None, rk=None, ctype=None, addr_of=None, objk=None):
         self.path = path      # access path of the lvalue this value was read from
         self.nul = nul        # None | 'NN' | 'NULL' | 'N' | 'U'
         self.src = src        # provenance of a nullable value: (kind, text)
@@ -78,6 +78,7 @@ class Val:
         self.rk = rk          # kind of a freshly constructed object: enumerator name or ('param', i)
         self.ctype = ctype
         self.addr_of = addr_of
+        self.objk = objk      # kind of the freshly constructed object this struct value was read from (`*new_x(K)`)
 
 
 UNKNOWN = Val()
@@ -259,7 +260,11 @@ class World:
         self.fact_summ = {}         # fname -> {'T': [disjunct], 'F': [...], 'A': [...]}; disjunct = (nul facts, vs facts) keyed by (param idx, suffix)
         self.end_marker = {}        # record -> (kind field, enumerator of the end marker, link field): lists ended by a marker element, not by NULL
         self.nonempty_strs = set()  # (fname, parameter index): every call passes a non-empty string literal
-        self.len_predicates = {}    # fname -> (index of the element parameter, index of the string parameter): true => element length == strlen(string)
+        self.len_predicates = {}    # fname -> (index of the element parameter, index of the string parameter | None, 'true' | 'return'):
+                                    #   the function is true / returns only if the element is not the end marker (with a string: if the string is not empty)
+        self.kept = {}              # fname -> {'pred': bool, 'T'|'F'|'A': set of parameter indices the function never stores through on that outcome}
+        self.entry_facts = {}       # (unit, fname) -> set of (parameter index, suffix): every caller passes an element that is not the end marker
+        self.cursor_compare = {}    # (unit, fname) -> why: in this function `c != e` for two cursors means c is before e in the list (c is not the marker)
         self.enum_universe = {}
         for u in self.units.values():
             for en, names in u.enum_types.items():
@@ -759,6 +764,8 @@ class Engine:
                     if f is not None:
                         r.nul, r.src = (f[0] if f[0] != 'U' else None), f[1]
                     r.vs = s.vs.get(p)
+                elif isinstance(v.rk, str):
+                    r.objk = v.rk
                 out.append((s, r))
             return out
         if op == '&':
@@ -903,6 +910,8 @@ class Engine:
             S.vs[p] = ('in', frozenset([v.rk]))
         if v.rk is not None and v.path is None:
             S.vs[p + '->kind'] = ('in', frozenset([v.rk]))
+        if v.objk is not None and v.path is None and p.endswith('[]'):
+            S.vs[p[:-2] + '->kind'] = ('in', frozenset([v.objk]))      # `*p = *new_x(K)`: whole-struct copy of a fresh object of kind K
 
     def note_store(self, S, lhs, p):
         e = lhs
@@ -1010,18 +1019,58 @@ class Engine:
         for s0, fv in pre:
             for s, vals in self.ev_list(args, s0):
                 n0 = len(out)
+                snaps = None
+                if c in self.W.kept:
+                    snaps = {}
+                    for i, v in enumerate(vals):
+                        if v.addr_of is not None and v.path is None and not v.addr_of.endswith(']'):
+                            a = args[i].strip_all()
+                            if a.kind == 'UnaryOperator' and a.opcode == '&':
+                                snaps[i] = (v.addr_of, self.snapshot(s, v.addr_of))
                 self.call_one(e, c, args, s, vals, out)
+                if snaps:
+                    out[n0:] = self.restore_kept(c, args, out[n0:], snaps)
                 if c in self.W.len_predicates:
                     out[n0:] = self.refine_len_predicate(c, args, vals, out[n0:])
+        return out
+
+    def snapshot(self, S, p):
+        return ([(q, f) for q, f in S.nul.items() if _ext(p, q)], [(q, f) for q, f in S.vs.items() if _ext(p, q)],
+                [(q, o) for q, o in S.ali.items() if _ext(p, q) or _ext(p, o)])
+
+    def restore_kept(self, c, args, res, snaps):
+        """`c(&x, ...)`: on the outcomes on which c never stores through that parameter (W.kept, from c's own body), x keeps its facts"""
+        k = self.W.kept[c]
+        out = []
+        for s, v in res:
+            if k['pred'] and v.path is None and v.const in (0, 1):
+                tags = [('T' if v.const == 1 else 'F', s, v)]
+            elif k['pred'] and v.path is None and v.const is None and not isinstance(v.ctype, tuple):
+                tags = [('T', s, Val(const=1)), ('F', s.copy(), Val(const=0))]
+            elif k['pred']:
+                tags = [(None, s, v)]
+            else:
+                tags = [('A', s, v)]
+            for tag, s2, v2 in tags:
+                keep = (k['T'] & k['F']) if tag is None else k[tag]
+                for i, (x, snap) in snaps.items():
+                    if i in keep:
+                        for q, f in snap[0]:
+                            s2.nul[q] = f
+                        for q, f in snap[1]:
+                            s2.vs[q] = f
+                        for q, o in snap[2]:
+                            s2.ali[q] = o
+                out.append((s2, v2))
         return out
 
     def refine_len_predicate(self, c, args, vals, res):
         """c(tok, "lit") is true only for a token whose length is strlen(lit): with a non-empty literal the token is not the
         end marker (whose length is 0, checked by the rule module).  Splits an unknown outcome."""
-        ti, si = self.W.len_predicates[c]
-        if ti >= len(vals) or si >= len(args) or vals[ti].path is None:
+        ti, si, when = self.W.len_predicates[c]
+        if ti >= len(vals) or (si is not None and si >= len(args)) or vals[ti].path is None:
             return res
-        lit = args[si].str_value()
+        lit = args[si].str_value() if si is not None else '?'
         if lit is None:
             x = args[si].strip_all()
             if x.kind == 'DeclRefExpr' and x.ref_kind == 'ParmVarDecl' and (self.fname, self.param_idx.get(x.ref_id)) in self.W.nonempty_strs:
@@ -1033,10 +1082,12 @@ class Engine:
         q = vals[ti].path + '->' + em[0]
         out = []
         for s, v in res:
-            if v.const == 0 and v.path is None:
+            if when == 'return':
+                pass                # holds whenever the function returns (it diagnoses the marker)
+            elif v.const == 0 and v.path is None:
                 out.append((s, v))
                 continue
-            if v.const is None or v.path is not None:
+            elif v.const is None or v.path is not None:
                 f = s.copy()
                 if isinstance(v.ctype, tuple) and v.path is None:     # remembered outcome of a repeated pure call
                     s.pc[v.ctype[0]] = (True, v.ctype[1])
@@ -1081,6 +1132,9 @@ class Engine:
                 if a.kind == 'UnaryOperator' and a.opcode == '&':
                     s.kill(v.addr_of)
                     s.nul[v.addr_of] = ('U', None)
+            elif v.path is not None and (args[i].type or '').replace(' ', '').endswith('**'):
+                s.kill(v.path + '[]')          # a pointer handed on: the callee may store through it
+                s.nul[v.path + '[]'] = ('U', None)
         for g in self.W.gwrites.get(c, ()):
             s.kill('G:' + g)
         r = Val()
@@ -1302,6 +1356,20 @@ class Engine:
         if vb.path is None and (vb.nul == 'NULL' or (vb.const == 0 and is_ptr_type(na.type))):
             t, f = self.truth(S, va)
             return f, t
+        if va.path is not None and vb.path is not None and (self.u.name, self.fname) in self.W.cursor_compare:
+            rec = rec_of(pointee(na.type or ''))
+            em = self.W.end_marker.get(rec)
+            if em is not None and rec == rec_of(pointee(nb.type or '')):
+                T, F = S, S.copy()
+                uni = self.universe(em[1], None)
+                for v in (va, vb)[:1]:
+                    q = v.path + '->' + em[0]
+                    cur = F.vs.get(q)
+                    if uni and (cur is None or cur[0] != 'in'):
+                        F.vs[q] = ('in', uni - frozenset([em[1]]))
+                    elif uni and cur[0] == 'in' and (cur[1] - frozenset([em[1]])):
+                        F.vs[q] = ('in', cur[1] - frozenset([em[1]]))
+                return [T], [F]
         if vb.path is None and vb.const is not None:
             cname = vb.ename if vb.ename is not None else vb.const
             if va.const is not None and va.path is None:
@@ -1652,6 +1720,13 @@ class Engine:
         pre = self.hooks.get('entry')
         if pre:
             pre(self, S)
+        for i, suf in self.W.entry_facts.get((self.u.name, self.fname), ()):
+            if i < len(self.params):
+                rec = rec_of(self.params[i].type)
+                em = self.W.end_marker.get(rec)
+                uni = self.universe(em[1], None) if em else None
+                if uni:
+                    S.vs['%s@%s%s->%s' % (self.params[i].name, self.params[i].id, suf, em[0])] = ('in', uni - frozenset([em[1]]))
         out = self.exec(body, [S])
         for S in out:
             self.returns.append((None, None, None))
@@ -1659,6 +1734,26 @@ class Engine:
             if self.keep_exit_states:
                 self.exit_states.append(S)
         return self
+
+    def kept_params(self):
+        """pointer-to-pointer parameters this function never stores through (nor hands to a callee), per outcome"""
+        cand = {}
+        for i, p in enumerate(self.params):
+            r = '%s@%s' % (p.name, p.id)
+            if (p.type or '').replace(' ', '').endswith('**') and r not in self.assigned_params:
+                cand[r] = i
+        if not cand or not self.ret_facts:
+            return None
+        pred = all(c in (0, 1) for c, S in self.ret_facts)
+        out = {'pred': pred, 'T': set(cand.values()), 'F': set(cand.values()), 'A': set(cand.values())}
+        for c, S in self.ret_facts:
+            tag = ('T' if c == 1 else 'F') if pred else 'A'
+            for r, i in cand.items():
+                if any(q.startswith(r + '[') for d in (S.nul, S.vs) for q in d):
+                    out[tag].discard(i)
+        if not (out['T'] if pred else set()) and not (out['F'] if pred else set()) and not (out['A'] if not pred else set()):
+            return None
+        return out
 
     def summary(self):
         """facts about the objects reachable from the parameters that hold when the function returns
@@ -1770,6 +1865,14 @@ def solve(W, max_rounds=12):
                             W.ret_vals[f] = rv
                         touched.add(f)
                 gstores[(un, f)] = eng.gstores
+                if len(W.fn_unit.get(f, ())) == 1:
+                    kp = eng.kept_params()
+                    if kp != W.kept.get(f):
+                        if kp is None:
+                            W.kept.pop(f, None)
+                        else:
+                            W.kept[f] = kp
+                        touched.add(f)
                 sm = eng.summary() if f not in W.recursive else None
                 if sm != W.fact_summ.get(f) and len(W.fn_unit.get(f, ())) == 1:
                     if sm is None:
@@ -1830,3 +1933,102 @@ def solve(W, max_rounds=12):
         raise AnalysisBroken('derived tables do not reach a fixpoint')
     W.rounds = rnd + 1
     return engines
+
+
+def derive_entry_facts(W, engines, skip_units=(), max_rounds=6):
+    """Assume/guarantee for marker-ended lists: where a function loads the link of a parameter element (or of its successors)
+    that is not known to differ from the end marker, try the precondition "the caller passes an element that is not the
+    marker"; it is kept only if EVERY call in the program establishes it (checked on the callers' states; the address of the
+    function is not taken).  Greatest fixpoint: candidates are assumed together, failing ones are dropped and everything
+    that depended on them is analysed again.  Returns {(unit, f): {(i, suffix): [call sites checked]}} of the kept ones."""
+    links = set('%s.%s' % (rec, em[2]) for rec, em in W.end_marker.items())
+    linkname = {rec: em[2] for rec, em in W.end_marker.items()}
+    taken = set()
+    callers = {}
+    for un, u in W.units.items():
+        for g, fd in u.functions.items():
+            cal = set()
+            for c in fd.calls():
+                x = c.inner[0].strip_all() if c.inner else None
+                if x is not None:
+                    cal.add(id(x))
+                if c.callee():
+                    callers.setdefault(c.callee(), set()).add((un, g))
+            for n in fd.walk():
+                if n.kind == 'DeclRefExpr' and n.ref_kind == 'FunctionDecl' and id(n) not in cal:
+                    taken.add(n.ref_name)
+    dropped = set()
+    kept = {}
+    for rnd in range(max_rounds):
+        cand = set()
+        for (un, f), e in engines.items():
+            if un in skip_units or f in taken or len(W.fn_unit.get(f, ())) != 1 or not callers.get(f):
+                continue
+            for d in e.derefs.values():
+                src = d['src']
+                if not d['bad'] or not src or src[0] != 'field' or src[1] not in links or len(src) < 4 or not src[3]:
+                    continue
+                base = src[3]
+                root = _root(base)
+                pid = root.split('@', 1)[1] if '@' in root else None
+                if pid not in e.param_idx:
+                    continue
+                suf = base[len(root):]
+                ln = linkname.get(rec_of(e.params[e.param_idx[pid]].type))
+                if ln is None or suf.replace('->' + ln, '') != '' or suf.count('->') > 2:
+                    continue
+                k = (un, f, e.param_idx[pid], suf)
+                if k not in dropped and (e.param_idx[pid], suf) not in W.entry_facts.get((un, f), ()):
+                    cand.add(k)
+        if not cand:
+            break
+        for un, f, i, suf in cand:
+            W.entry_facts.setdefault((un, f), set()).add((i, suf))
+            W.record_calls.add(f)
+        while True:
+            todo = set()
+            for (un, f) in W.entry_facts:
+                todo.add((un, f))
+                todo |= callers.get(f, set())
+            for (un, g) in todo:
+                if un not in skip_units:
+                    engines[(un, g)] = Engine(W, W.units[un], g).run()
+            failing = set()
+            for (un, f), facts in W.entry_facts.items():
+                for (i, suf) in facts:
+                    sites = []
+                    ok = True
+                    for (cu, g) in callers.get(f, ()):
+                        e = engines.get((cu, g))
+                        if e is None or cu in skip_units:
+                            ok = False
+                            continue
+                        for node, c, S, vals in e.calls:
+                            if c != f:
+                                continue
+                            v = vals[i] if i < len(vals) else None
+                            em = W.end_marker.get(rec_of(pointee(node.args()[i].type or ''))) if v is not None else None
+                            fct = S.vs.get(v.path + suf + '->' + em[0]) if (v is not None and v.path is not None and em) else None
+                            good = fct is not None and ((fct[0] == 'in' and em[1] not in fct[1]) or (fct[0] == 'notin' and em[1] in fct[1]))
+                            sites.append('%s:%s' % (cu, g))
+                            if not good:
+                                ok = False
+                        if not any(c == f for node, c, S, vals in e.calls):
+                            ok = False       # a call the engine did not reach/record
+                    if not ok or not sites:
+                        failing.add((un, f, i, suf))
+                    else:
+                        kept.setdefault((un, f), {})[(i, suf)] = sorted(set(sites))
+            if not failing:
+                break
+            for un, f, i, suf in failing:
+                dropped.add((un, f, i, suf))
+                W.entry_facts[(un, f)].discard((i, suf))
+                kept.get((un, f), {}).pop((i, suf), None)
+                todo.add((un, f))
+            for k in [k for k, v in W.entry_facts.items() if not v]:
+                del W.entry_facts[k]
+            for (un, g) in todo:          # the functions that lost an assumption are analysed without it
+                if un not in skip_units:
+                    engines[(un, g)] = Engine(W, W.units[un], g).run()
+    return {k: v for k, v in kept.items() if v}
